@@ -3,6 +3,7 @@
 package harness
 
 import (
+	"context"
 	"crypto/ecdsa"
 	"encoding/hex"
 	"fmt"
@@ -15,13 +16,20 @@ import (
 	"time"
 
 	sdkmath "cosmossdk.io/math"
+	storetypes "cosmossdk.io/store/types"
 	codectypes "github.com/cosmos/cosmos-sdk/codec/types"
 	sdk "github.com/cosmos/cosmos-sdk/types"
+	authcodec "github.com/cosmos/cosmos-sdk/x/auth/codec"
 	"github.com/ethereum/go-ethereum/crypto"
+	chainparams "github.com/palomachain/paloma/v2/app/params"
 	evmtypes "github.com/palomachain/paloma/v2/x/evm/types"
+	skybindings "github.com/palomachain/paloma/v2/x/skyway/bindings"
+	skybindingstypes "github.com/palomachain/paloma/v2/x/skyway/bindings/types"
 	skykeeper "github.com/palomachain/paloma/v2/x/skyway/keeper"
 	skytypes "github.com/palomachain/paloma/v2/x/skyway/types"
+	tokenfactorytypes "github.com/palomachain/paloma/v2/x/tokenfactory/types"
 	valsettypes "github.com/palomachain/paloma/v2/x/valset/types"
+	"google.golang.org/protobuf/types/known/emptypb"
 )
 
 // Bridge life-cycle correspondence (model: lean/PalomaModel/Model/Bridge.lean).
@@ -368,6 +376,7 @@ func TestBridge(t *testing.T) {
 	}
 	if prop == "C01" {
 		brTwoChainScenario(t, r, 1+r.N/6, 40)
+		brRebindScenario(t, r, 1+r.N/4, 45)
 	}
 }
 
@@ -1226,5 +1235,590 @@ func brTwoChainScenario(t *testing.T, r *Rec, rounds, nops int) {
 			}
 		}
 		r.Case("twochain|"+strings.Join(hist, "|"), len(accepted) > 0)
+	}
+}
+
+// ---------------------------------------------------------------------------
+// A denom that moves from one token contract to another while transfers are pending
+// ---------------------------------------------------------------------------
+//
+// A transfer is escrowed in a denom but recorded (pool key, batch key) under the contract the denom is bound to
+// at that moment; refund and burn find the denom again through the contract.  The main generator binds every
+// denom once, before the first transfer, and never again.  Here the bindings move during the life of the
+// transfers, through all three entry points (governance proposal, MsgSetERC20ToTokenDenom by the token's admin,
+// the wasm binding set_erc20_to_denom), by admins and by strangers, towards fresh contracts, contracts left
+// behind by the same denom and contracts that serve another denom; token admins are handed over in between.
+//
+// The registry (both tables, accept / refuse of every binding, the contract a send is recorded under, the denom
+// a refund / a burn is paid in) is compared line by line with Registry of Model/Bridge.lean (`regreset`, `bind`,
+// `sentunder`, `paidin`; theorems `paid_in_the_escrowed_denom`, `reverse_entries_are_forever`,
+// `contract_serves_one_denom`, `admin_bind_*` of Props/C01.lean).  The pool / batch machine itself is keyed by
+// denom in the Lean model, so - as for the two-chain scenario - the property's own statement is evaluated on the
+// implementation after every step, with the harness's own record of which denom every accepted transfer locked:
+// per denom the escrow equals the sum over the pending transfers that locked that denom; every transfer is in
+// exactly one place; the sender of a pooled transfer gets exactly what the send cost back, in the denom it
+// locked; a batch every validator attests as executed is gone and exactly its worth is burned, in the denom
+// its transfers locked; supply moves by nothing else; a refused step changes nothing.
+
+// brTokenFactory stands in for the token factory collaborator of the skyway keeper (the keeper fixture has
+// none): the admin of a denom is whoever the harness's table says.
+type brTokenFactory struct{ admins map[string]string }
+
+func (f brTokenFactory) GetAuthorityMetadata(_ context.Context, denom string) (tokenfactorytypes.DenomAuthorityMetadata, error) {
+	a, ok := f.admins[denom]
+	if !ok {
+		return tokenfactorytypes.DenomAuthorityMetadata{}, fmt.Errorf("denom %s does not exist", denom)
+	}
+	return tokenfactorytypes.DenomAuthorityMetadata{Admin: a}, nil
+}
+
+// brWasmServer is what the wasm plugin of x/skyway talks to: the message server of the keeper.
+type brWasmServer struct {
+	bind skytypes.MsgServer // keeper with the token factory stand-in
+	rest skytypes.MsgServer // the fixture's keeper behind the fault proxies
+}
+
+func (s brWasmServer) SetERC20ToTokenDenom(ctx context.Context, m *skytypes.MsgSetERC20ToTokenDenom) (*emptypb.Empty, error) {
+	return s.bind.SetERC20ToTokenDenom(ctx, m)
+}
+
+func (s brWasmServer) SendToRemote(ctx context.Context, m *skytypes.MsgSendToRemote) (*skytypes.MsgSendToRemoteResponse, error) {
+	return s.rest.SendToRemote(ctx, m)
+}
+
+func (s brWasmServer) CancelSendToRemote(ctx context.Context, m *skytypes.MsgCancelSendToRemote) (*skytypes.MsgCancelSendToRemoteResponse, error) {
+	return s.rest.CancelSendToRemote(ctx, m)
+}
+
+func brRebindScenario(t *testing.T, r *Rec, rounds, nops int) {
+	const nDen, nCon, nUsers = 3, 6, 4
+	for round := 0; round < rounds; round++ {
+		e := newSkyEnv(t, nUsers)
+		e.fault.Reset("", 0)
+		tf := brTokenFactory{admins: map[string]string{}}
+		// a keeper over the same store whose token factory collaborator is the stand-in: serves the admin entry point
+		// (the fixture does not hand out the module's store key: it is looked up in the fixture's multistore by name)
+		byName, ok := e.ctx.MultiStore().(interface {
+			StoreKeysByName() map[string]storetypes.StoreKey
+		})
+		if !ok || byName.StoreKeysByName()[skytypes.StoreKey] == nil {
+			t.Fatal("rebind scenario: the skyway store key cannot be found in the fixture's multistore")
+		}
+		k2 := skykeeper.NewKeeper(e.in.Marshaler, e.in.AccountKeeper, &e.in.StakingKeeper, e.in.BankKeeper, &e.in.SlashingKeeper, e.in.DistKeeper,
+			e.in.IbcTransferKeeper, e.in.EvmKeeper, nil, nil, tf, skykeeper.NewSkywayStoreGetter(byName.StoreKeysByName()[skytypes.StoreKey]), "",
+			authcodec.NewBech32Codec(chainparams.ValidatorAddressPrefix))
+		ms2 := skykeeper.NewMsgServerImpl(k2)
+		wasm := skybindings.NewMessenger(brWasmServer{bind: ms2, rest: e.ms})
+		// denoms 1, 2: token factory denoms created by users 1, 2; denom 3: a plain denom only governance can bind
+		e.denoms = []string{fmt.Sprintf("factory/%s/gold", e.users[0]), fmt.Sprintf("factory/%s/mud", e.users[1]), "utok3"}
+		tf.admins[e.denoms[0]], tf.admins[e.denoms[1]] = e.users[0].String(), e.users[1].String()
+		e.erc20 = nil // contract id-1 -> address: poolTxs / batchList report the CONTRACT id in their tok field
+		for c := 1; c <= nCon; c++ {
+			e.erc20 = append(e.erc20, fmt.Sprintf("0x10000000000000000000000000000000000000%02x", c))
+		}
+		var hist []string
+		input := func(op string) map[string]interface{} {
+			return map[string]interface{}{"scenario": "denoms move between token contracts while transfers are pending", "history": append(append([]string{}, hist...), op)}
+		}
+		// VERIF_C01_REBIND_REIMPORT=1 adds the genesis export / import of the bridge module to these histories.  Off by
+		// default: on the pinned tree the export drops the reverse entry of every contract a denom has left behind
+		// (ExportGenesis writes one entry per denom), so a transfer still pending under such a contract can be neither
+		// refunded nor burned afterwards - reported to the lead as a defect of the unchanged tree, see Props/C01.md.
+		withReimport := os.Getenv("VERIF_C01_REBIND_REIMPORT") == "1"
+		regLines := true // the registry model has no export / import: after one, only the monitors go on
+		emit := func(line, out string) {
+			if regLines {
+				r.Op(line, out)
+			}
+		}
+		emit(fmt.Sprintf("regreset %d %d", nDen, nCon), "ok")
+
+		// the harness's own record
+		type acc struct {
+			sender, den, cid int
+			cost             *big.Int
+		}
+		accepted := map[int]acc{}
+		gone := map[int]string{}
+		owner := map[int]int{} // contract -> the denom it was (first) bound to, by the accepted bindings
+		cur := map[int]int{}   // denom -> contract of its latest accepted binding
+		funded, burned := map[int]*big.Int{}, map[int]*big.Int{}
+		for d := 1; d <= nDen; d++ {
+			funded[d], burned[d] = new(big.Int), new(big.Int)
+		}
+		supply := func(d int) *big.Int { return e.in.BankKeeper.GetSupply(e.ctx, e.denoms[d-1]).Amount.BigInt() }
+		denomIdxOf := func(c int) string { // the implementation's reverse table
+			addr, _ := skytypes.NewEthAddress(e.erc20[c-1])
+			dn, err := e.raw.GetDenomOfERC20(e.ctx, skyChain, *addr)
+			if err != nil {
+				return "none"
+			}
+			return fmt.Sprint(e.tokenOf(dn))
+		}
+		tables := func() string {
+			var ercs, dens []string
+			for d := 1; d <= nDen; d++ {
+				if a, err := e.raw.GetERC20OfDenom(e.ctx, skyChain, e.denoms[d-1]); err == nil {
+					ercs = append(ercs, fmt.Sprintf("%d:%d", d, e.tokenOfContract(a.GetAddress().Hex())))
+				}
+			}
+			for c := 1; c <= nCon; c++ {
+				if x := denomIdxOf(c); x != "none" {
+					dens = append(dens, fmt.Sprintf("%d:%s", c, x))
+				}
+			}
+			j := func(l []string) string {
+				if len(l) == 0 {
+					return "-"
+				}
+				return strings.Join(l, ",")
+			}
+			return "erc=" + j(ercs) + " den=" + j(dens)
+		}
+		snapshot := func() string {
+			var parts []string
+			for _, x := range e.poolTxs() {
+				parts = append(parts, fmt.Sprintf("p%d/%d", x.id, x.tok))
+			}
+			for _, bb := range e.batchList() {
+				ids := []string{}
+				for _, x := range bb.txs {
+					ids = append(ids, fmt.Sprint(x.id))
+				}
+				parts = append(parts, fmt.Sprintf("b%d/%d[%s]", bb.tok, bb.nonce, strings.Join(ids, ",")))
+			}
+			sort.Strings(parts)
+			s := strings.Join(parts, " ") + " " + tables()
+			for d := 1; d <= nDen; d++ {
+				s += fmt.Sprintf(" d%d:esc=%s,sup=%s,bal=", d, e.escrow(d), supply(d))
+				for _, u := range e.users {
+					s += e.in.BankKeeper.GetBalance(e.ctx, u, e.denoms[d-1]).Amount.String() + "/"
+				}
+			}
+			return s
+		}
+		check := func(op string) {
+			places := map[int][]string{}
+			see := func(x obsTx, where string) {
+				places[x.id] = append(places[x.id], where)
+				a, ok := accepted[x.id]
+				if !ok {
+					r.Hit("exactly_one_place", fmt.Sprintf("a transfer %d nobody sent is pending in %s after `%s`", x.id, where, op), input(op))
+					return
+				}
+				am, _ := new(big.Int).SetString(x.amount, 10)
+				tx, _ := new(big.Int).SetString(x.tax, 10)
+				if am.Add(am, tx).Cmp(a.cost) != 0 {
+					r.Hit("cost_exact", fmt.Sprintf("transfer %d cost its sender %s but is recorded with amount %s tax %s", x.id, a.cost, x.amount, x.tax), input(op))
+				}
+				// refund and burn find the denom through the contract the transfer is recorded under: as long as the
+				// transfer is pending that must be the denom it locked
+				if got := denomIdxOf(x.tok); got != fmt.Sprint(a.den) {
+					r.Hit("pending_payable_in_escrowed_denom", fmt.Sprintf("transfer %d locked denom %d and is pending in %s under contract %d, which now resolves to denom %s after `%s`", x.id, a.den, where, x.tok, got, op), input(op))
+				}
+			}
+			for _, x := range e.poolTxs() {
+				see(x, "pool")
+			}
+			for _, bb := range e.batchList() {
+				for _, x := range bb.txs {
+					see(x, fmt.Sprintf("batch %d/%d", bb.tok, bb.nonce))
+				}
+			}
+			pending := map[int]*big.Int{}
+			for d := 1; d <= nDen; d++ {
+				pending[d] = new(big.Int)
+			}
+			for id, a := range accepted {
+				want := 1
+				if gone[id] != "" {
+					want = 0
+				} else {
+					pending[a.den].Add(pending[a.den], a.cost)
+				}
+				if len(places[id]) != want {
+					r.Hit("exactly_one_place", fmt.Sprintf("transfer %d (%s) is in %v after `%s`", id, map[bool]string{true: "pending", false: gone[id]}[gone[id] == ""], places[id], op), input(op))
+				}
+			}
+			for d := 1; d <= nDen; d++ {
+				if esc := e.escrow(d); esc.BigInt().Cmp(pending[d]) != 0 {
+					r.Hit("escrow_eq_pending", fmt.Sprintf("denom %d: escrow %s but the pending transfers that locked it total %s after `%s`", d, esc, pending[d], op), input(op))
+				}
+				if want := new(big.Int).Sub(funded[d], burned[d]); supply(d).Cmp(want) != 0 {
+					r.Hit("supply_delta", fmt.Sprintf("denom %d: supply %s, expected %s (funded %s, executed batches %s) after `%s`", d, supply(d), want, funded[d], burned[d], op), input(op))
+				}
+			}
+		}
+		step := func(op string, fn func() bool) bool {
+			before := snapshot()
+			ok := fn()
+			if !ok {
+				if after := snapshot(); after != before {
+					r.Hit("failed_op_is_noop", fmt.Sprintf("refused `%s` changed state: %s -> %s", op, before, after), input(op))
+				}
+			}
+			check(op)
+			res := "rejected"
+			if ok {
+				res = "ok"
+			}
+			hist = append(hist, op+" => "+res)
+			r.Stat("rebind." + strings.SplitN(op, " ", 2)[0] + "." + res)
+			return ok
+		}
+		bind := func(path string, who, d, c int) {
+			denom := e.denoms[d-1]
+			isAdmin := 0
+			if tf.admins[denom] == e.users[who-1].String() {
+				isAdmin = 1
+			}
+			op := fmt.Sprintf("bind %s %d %d %d", path, isAdmin, d, c)
+			ok := step(fmt.Sprintf("%s (by user %d)", op, who), func() bool {
+				return e.runMsg(func(ctx sdk.Context) error {
+					switch path {
+					case "gov":
+						return e.gov(ctx, &skytypes.SetERC20ToDenomProposal{Title: "t", Description: "d", ChainReferenceId: skyChain, Erc20: e.erc20[c-1], Denom: denom})
+					case "admin":
+						_, err := ms2.SetERC20ToTokenDenom(ctx, &skytypes.MsgSetERC20ToTokenDenom{Denom: denom, ChainReferenceId: skyChain, Erc20: e.erc20[c-1], Metadata: e.meta(e.users[who-1])})
+						return err
+					default:
+						_, _, _, err := wasm.DispatchMsg(ctx, e.users[who-1], "", skybindingstypes.Message{SetErc20ToDenom: &skybindingstypes.SetErc20ToDenom{Erc20Address: e.erc20[c-1], TokenDenom: denom, ChainReferenceId: skyChain}})
+						return err
+					}
+				}) == "ok"
+			})
+			res := "rejected"
+			if ok {
+				res = "ok"
+				if _, had := owner[c]; !had {
+					owner[c] = d
+				}
+				if old, had := cur[d]; had && old != c {
+					r.Stat("rebind.denom_moved")
+					for id, a := range accepted {
+						if gone[id] == "" && a.cid == old {
+							r.Stat("rebind.denom_moved_with_pending_transfers")
+							break
+						}
+					}
+				}
+				cur[d] = c
+			}
+			emit(op, res+" "+tables())
+		}
+		// every denom starts out bound (denoms 1 and 2 by their admins, denom 3 by governance) and funded
+		bind([]string{"admin", "wasm"}[r.Rng.Intn(2)], 1, 1, 1)
+		bind([]string{"admin", "gov"}[r.Rng.Intn(2)], 2, 2, 2)
+		if r.Rng.Intn(4) != 0 {
+			bind("gov", 1, 3, 3)
+		}
+		for u := 1; u <= nUsers; u++ {
+			for d := 1; d <= nDen; d++ {
+				amt := sdkmath.NewInt(int64(500 + r.Rng.Intn(3000)))
+				e.fund(u, d, amt)
+				funded[d].Add(funded[d], amt.BigInt())
+			}
+		}
+		if r.Rng.Intn(2) == 0 {
+			d := 1 + r.Rng.Intn(nDen)
+			if err := e.gov(e.ctx, &skytypes.SetBridgeTaxProposal{Title: "t", Description: "d", Token: e.denoms[d-1], Rate: "1/10"}); err != nil {
+				t.Fatal(err)
+			}
+			hist = append(hist, fmt.Sprintf("settax denom %d 1/10", d))
+		}
+		balances := func(u int) map[int]*big.Int {
+			m := map[int]*big.Int{}
+			for d := 1; d <= nDen; d++ {
+				m[d] = e.in.BankKeeper.GetBalance(e.ctx, e.users[u-1], e.denoms[d-1]).Amount.BigInt()
+			}
+			return m
+		}
+		for i := 0; i < nops; i++ {
+			switch x := r.Rng.Intn(100); {
+			case x < 32: // send, as a message or from a contract through the wasm binding
+				u, d := 1+r.Rng.Intn(nUsers), 1+r.Rng.Intn(nDen)
+				amt := sdkmath.NewInt(int64(1 + r.Rng.Intn(400)))
+				known := map[int]bool{}
+				for _, p := range e.poolTxs() {
+					known[p.id] = true
+				}
+				before := balances(u)
+				via := "msg"
+				if r.Rng.Intn(4) == 0 {
+					via = "wasm"
+				}
+				op := fmt.Sprintf("send %s user %d denom %d amount %s", via, u, d, amt)
+				found, cid := false, 0
+				ok := step(op, func() bool {
+					okd := e.runMsg(func(ctx sdk.Context) error {
+						if via == "wasm" {
+							_, _, _, err := wasm.DispatchMsg(ctx, e.users[u-1], "", skybindingstypes.Message{SendTx: &skybindingstypes.SendTx{RemoteChainDestinationAddress: "0x00000000000000000000000000000000000000aa", Amount: amt.String() + e.denoms[d-1], ChainReferenceId: skyChain}})
+							return err
+						}
+						_, err := e.ms.SendToRemote(ctx, &skytypes.MsgSendToRemote{EthDest: "0x00000000000000000000000000000000000000aa", Amount: sdk.Coin{Denom: e.denoms[d-1], Amount: amt}, ChainReferenceId: skyChain, Metadata: e.meta(e.users[u-1])})
+						return err
+					}) == "ok"
+					if okd {
+						// the harness's record: who sent, which denom was locked, what it cost (the sender's balance), where it went
+						after := balances(u)
+						for _, p := range e.poolTxs() {
+							if !known[p.id] {
+								found, cid = true, p.tok
+								accepted[p.id] = acc{u, d, p.tok, new(big.Int).Sub(before[d], after[d])}
+							}
+						}
+						for dd := 1; dd <= nDen; dd++ {
+							if dd != d && before[dd].Cmp(after[dd]) != 0 {
+								r.Hit("cost_exact", fmt.Sprintf("`%s` changed the sender's balance of denom %d", op, dd), input(op))
+							}
+						}
+					}
+					return okd
+				})
+				if !ok {
+					continue
+				}
+				if !found {
+					r.Hit("exactly_one_place", fmt.Sprintf("accepted `%s` left no transfer in the pool", op), input(op))
+					continue
+				}
+				emit(fmt.Sprintf("sentunder %d", d), fmt.Sprint(cid))
+			case x < 47: // the sender (rarely: somebody else) takes a pooled transfer back
+				pool := e.poolTxs()
+				if len(pool) == 0 {
+					continue
+				}
+				p := pool[r.Rng.Intn(len(pool))]
+				a, known := accepted[p.id]
+				if !known {
+					continue
+				}
+				u := a.sender
+				if r.Rng.Intn(8) == 0 {
+					u = 1 + a.sender%nUsers
+				}
+				via := "msg"
+				if r.Rng.Intn(4) == 0 {
+					via = "wasm"
+				}
+				before := balances(u)
+				op := fmt.Sprintf("cancel %s user %d transfer %d", via, u, p.id)
+				ok := step(op, func() bool {
+					okd := e.runMsg(func(ctx sdk.Context) error {
+						if via == "wasm" {
+							_, _, _, err := wasm.DispatchMsg(ctx, e.users[u-1], "", skybindingstypes.Message{CancelTx: &skybindingstypes.CancelTx{TransactionId: uint64(p.id)}})
+							return err
+						}
+						_, err := e.ms.CancelSendToRemote(ctx, &skytypes.MsgCancelSendToRemote{TransactionId: uint64(p.id), Metadata: e.meta(e.users[u-1])})
+						return err
+					}) == "ok"
+					if okd {
+						gone[p.id] = "refunded"
+					}
+					return okd
+				})
+				if u != a.sender {
+					if ok {
+						r.Hit("refund_in_full", fmt.Sprintf("transfer %d of user %d was handed to user %d", p.id, a.sender, u), input(op))
+					}
+					continue
+				}
+				paid := "none"
+				if cur[a.den] != a.cid {
+					r.Stat("rebind.cancel_under_left_behind_contract")
+				}
+				if !ok {
+					// a transfer that waits in the pool can always be taken back by its sender (no fault is injected here)
+					r.Hit("refund_in_full", fmt.Sprintf("transfer %d (denom %d, recorded under contract %d) waits in the pool but its sender's cancellation was refused", p.id, a.den, a.cid), input(op))
+				} else {
+					after := balances(u)
+					for d := 1; d <= nDen; d++ {
+						got := new(big.Int).Sub(after[d], before[d])
+						want := new(big.Int)
+						if d == a.den {
+							want = a.cost
+						}
+						if got.Sign() != 0 {
+							if paid == "none" {
+								paid = fmt.Sprint(d)
+							} else {
+								paid = "several"
+							}
+						}
+						if got.Cmp(want) != 0 {
+							r.Hit("refund_in_full", fmt.Sprintf("cancel of transfer %d (cost %s of denom %d) changed the sender's balance of denom %d by %s", p.id, a.cost, a.den, d, got), input(op))
+						}
+					}
+				}
+				emit(fmt.Sprintf("paidin %d", p.tok), paid)
+			case x < 65: // a binding
+				d := 1 + r.Rng.Intn(nDen)
+				path := []string{"gov", "admin", "admin", "wasm"}[r.Rng.Intn(4)]
+				who := 1 + r.Rng.Intn(nUsers)
+				if r.Rng.Intn(10) < 7 {
+					for u := 1; u <= nUsers; u++ {
+						if tf.admins[e.denoms[d-1]] == e.users[u-1].String() {
+							who = u
+						}
+					}
+				}
+				var fresh, own, others []int
+				for c := 1; c <= nCon; c++ {
+					switch o, had := owner[c]; {
+					case !had:
+						fresh = append(fresh, c)
+					case o == d:
+						own = append(own, c)
+					default:
+						others = append(others, c)
+					}
+				}
+				pick := func(l []int) int { return l[r.Rng.Intn(len(l))] }
+				var c int
+				switch y := r.Rng.Intn(10); {
+				case y < 5 && len(fresh) > 0:
+					c = pick(fresh)
+				case y < 7 && len(own) > 0:
+					c = pick(own) // the current contract again, or one the denom left behind
+				case len(others) > 0 && path != "gov":
+					c = pick(others) // a contract that serves (or served) another denom: token admins may ask
+				case len(own) > 0:
+					c = pick(own)
+				case len(fresh) > 0:
+					c = pick(fresh)
+				default:
+					continue
+				}
+				// governance is trusted not to hand a contract that serves one denom to another one (`RegOp.sane` of Props/C01.lean)
+				if o, had := owner[c]; path == "gov" && had && o != d {
+					continue
+				}
+				bind(path, who, d, c)
+			case x < 67 && withReimport: // the chain is exported and started again from the export (bridge module)
+				step("reimport", func() bool {
+					gs := skykeeper.ExportGenesis(e.ctx, e.raw)
+					st := e.raw.GetStore(e.ctx, "")
+					it := st.Iterator(nil, nil)
+					var keys [][]byte
+					for ; it.Valid(); it.Next() {
+						keys = append(keys, append([]byte(nil), it.Key()...))
+					}
+					it.Close()
+					for _, k := range keys {
+						st.Delete(k)
+					}
+					skykeeper.InitGenesis(e.ctx, e.raw, gs)
+					return true
+				})
+				regLines = false
+			case x < 68: // the admin of a token factory denom hands the denom over
+				d := 1 + r.Rng.Intn(2)
+				u := 1 + r.Rng.Intn(nUsers)
+				tf.admins[e.denoms[d-1]] = e.users[u-1].String()
+				hist = append(hist, fmt.Sprintf("admin of denom %d is now user %d", d, u))
+				r.Stat("rebind.admin_handover")
+			case x < 80: // a batch is requested for one contract: one with waiting transfers (current or left behind) or any
+				c := 1 + r.Rng.Intn(nCon)
+				if pool := e.poolTxs(); len(pool) > 0 && r.Rng.Intn(4) != 0 {
+					c = pool[r.Rng.Intn(len(pool))].tok
+				}
+				contract, _ := skytypes.NewEthAddress(e.erc20[c-1])
+				e.setBlock(e.height+1, e.now.Add(2*time.Second))
+				step(fmt.Sprintf("build contract %d", c), func() bool {
+					_, err := e.k.BuildOutgoingTXBatch(e.ctx, skyChain, *contract, skykeeper.OutgoingTxBatchSize)
+					return err == nil
+				})
+			case x < 90: // end of block: batches for every bound denom at every 50th height, timeouts
+				h := e.height + 1 + int64(r.Rng.Intn(3))
+				if r.Rng.Intn(3) == 0 {
+					h = (e.height/50 + 1) * 50
+				}
+				adv := 2 * time.Second
+				if r.Rng.Intn(4) == 0 {
+					adv = time.Duration(11+r.Rng.Intn(40)) * time.Minute
+				}
+				e.setBlock(h, e.now.Add(adv))
+				step(fmt.Sprintf("endblock %d +%s", h, adv), func() bool { e.endBlock(); return true })
+			default: // every validator attests an open batch as executed
+				bs := e.batchList()
+				if len(bs) == 0 {
+					continue
+				}
+				bb := bs[r.Rng.Intn(len(bs))]
+				n := e.valNonce + 1
+				e.ethHeight += uint64(1 + r.Rng.Intn(20))
+				ethH := e.ethHeight
+				okc := e.voteAll(func(o sdk.AccAddress) sdk.Msg {
+					return &skytypes.MsgBatchSendToRemoteClaim{EventNonce: n, EthBlockHeight: ethH, BatchNonce: uint64(bb.nonce), TokenContract: e.erc20[bb.tok-1], ChainReferenceId: skyChain, Orchestrator: o.String(), Metadata: e.meta(o), SkywayNonce: n, CompassId: skyCompass}
+				})
+				if okc != len(skykeeper.ValAddrs) {
+					if okc != 0 {
+						t.Fatalf("rebind scenario: partial vote %d", okc)
+					}
+					r.Stat("rebind.exec.votes_refused")
+					continue
+				}
+				e.valNonce = n
+				worth := map[int]*big.Int{}
+				for d := 1; d <= nDen; d++ {
+					worth[d] = new(big.Int)
+				}
+				var ids []int
+				for _, x := range bb.txs {
+					if a, ok := accepted[x.id]; ok {
+						worth[a.den].Add(worth[a.den], a.cost)
+					}
+					ids = append(ids, x.id)
+				}
+				supBefore := map[int]*big.Int{}
+				for d := 1; d <= nDen; d++ {
+					supBefore[d] = supply(d)
+				}
+				e.setBlock(e.height+1, e.now.Add(2*time.Second))
+				op := fmt.Sprintf("exec batch %d of contract %d (transfers %v) attested by everyone, endblock %d", bb.nonce, bb.tok, ids, e.height)
+				open := false
+				step(op, func() bool {
+					e.endBlock()
+					for _, still := range e.batchList() {
+						if still.nonce == bb.nonce && still.tok == bb.tok {
+							open = true
+							return true
+						}
+					}
+					for d := 1; d <= nDen; d++ {
+						burned[d].Add(burned[d], worth[d])
+					}
+					for _, id := range ids {
+						gone[id] = "burned"
+					}
+					return true
+				})
+				paid := "none"
+				if owner[bb.tok] != 0 && cur[owner[bb.tok]] != bb.tok {
+					r.Stat("rebind.exec_under_left_behind_contract")
+				}
+				if open {
+					// the batch was open, not timed out on the remote chain, attested by every validator at the oracle's next nonce
+					r.Hit("executed_batch_burned", fmt.Sprintf("batch %d of contract %d was attested as executed by every validator and is still open: its transfers %v are not burned", bb.nonce, bb.tok, ids), input(op))
+				}
+				for d := 1; d <= nDen; d++ {
+					if supply(d).Cmp(supBefore[d]) != 0 {
+						if paid == "none" {
+							paid = fmt.Sprint(d)
+						} else {
+							paid = "several"
+						}
+					}
+				}
+				emit(fmt.Sprintf("paidin %d", bb.tok), paid)
+			}
+		}
+		moved := false
+		for _, h := range hist {
+			if strings.HasPrefix(h, "bind") && strings.HasSuffix(h, "=> ok") {
+				moved = true
+			}
+		}
+		r.Case("rebind|"+strings.Join(hist, "|"), len(accepted) > 0 && moved)
 	}
 }
